@@ -142,6 +142,9 @@ func main() {
 			delete(lastKind, k)
 		}
 	}
+	metaReaders(r)
+	r.Floor("meta-readers.blocks", 60)
+	r.Floor("meta-readers.reads", 5000)
 	r.Floor("irr.compared", 2000)
 	r.Floor("failing-ops", 100)
 	r.Floor("twowalks", 60)
